@@ -38,6 +38,18 @@ class CMF:
     def __exit__(self, t, v, tb):
         _log.append(self.tag + ':exit')
         return self.sup
+class CMX:
+    # a context manager whose __exit__ raises: its exception replaces whatever was leaving the body
+    def __init__(self, tag):
+        self.tag = tag
+    def __enter__(self):
+        _log.append(self.tag + ':enter')
+        return self
+    def __exit__(self, t, v, tb):
+        _log.append(self.tag + ':exit-raises')
+        if t is None:
+            _log.append('noexc')
+        raise UE2(9)
 class CM:
     def __init__(self, tag, sup):
         self.tag = tag
@@ -99,6 +111,8 @@ type c02Gen struct {
 	crosses  bool // an exit action sits inside a finally-protected / with / loop region
 	maxDepth int
 	kinds    map[string]bool
+	helper   bool // a second generated function hp(k) exists and may be called from fn
+	hcalls   int
 }
 
 type c02Ctx struct {
@@ -171,10 +185,14 @@ func (c *c02Gen) block(cx c02Ctx, minStmts int) string {
 	}
 	for i := 0; i < n; i++ {
 		kind := 0
+		hw := 0
+		if c.helper && c.hcalls < 2 {
+			hw = 2
+		}
 		if cx.depth < 4 {
-			kind = g.Weighted(3, 4, 2, 1, 2, 4, 2)
+			kind = g.Weighted(3, 4, 2, 1, 2, 4, 2, hw)
 		} else {
-			kind = g.Weighted(3, 4)
+			kind = g.Weighted(3, 4, 0, 0, 0, 0, 0, hw)
 		}
 		switch kind {
 		case 0:
@@ -299,7 +317,14 @@ func (c *c02Gen) block(cx c02Ctx, minStmts int) string {
 				c.r.On("c02.with.exit_truthy_nonbool")
 				sup = g.Str("False", "True", "None")
 			}
-			if g.Chance(1, 8) {
+			if g.Chance(1, 10) {
+				c.kinds["with-exit-raises"] = true
+				if g.Bool() {
+					fmt.Fprintf(&sb, "with CMX('w%d'):\n", c.nid())
+				} else {
+					fmt.Fprintf(&sb, "with CM('w%d', %s), CMX('w%d'):\n", c.nid(), sup, c.nid())
+				}
+			} else if g.Chance(1, 8) {
 				c.kinds["with-enter-raises"] = true
 				fmt.Fprintf(&sb, "with %s('w%d', %s), %s('w%d', True) as m:\n", g.Str("CM", "CMF"), c.nid(), sup, g.Str("CMF", "CM", "CMF"), c.nid())
 			} else if g.Chance(1, 3) {
@@ -310,6 +335,13 @@ func (c *c02Gen) block(cx c02Ctx, minStmts int) string {
 				fmt.Fprintf(&sb, "with CM('w%d', %s):\n", c.nid(), sup)
 			}
 			sb.WriteString(Indent(c.block(in, 1), 4))
+		case 7: // call of the second generated function: unwinding and tracebacks across frames
+			c.hcalls++
+			c.kinds["helper-call"] = true
+			if cx.guarded {
+				c.crosses = true
+			}
+			sb.WriteString("_log.append(hp(k))\n")
 		}
 	}
 	return sb.String()
@@ -323,6 +355,7 @@ func TestC02(t *testing.T) {
 	r.Extra("rule", "random nestings (depth<=4) of for/while(+else), if/elif/else, try/except/else/finally (1-3 handlers: bare, class, tuple, as), with (1-2 managers, "+
 		"generated __exit__ truthiness), with <=3 exit points (raise class/instance, return, break, continue, bare raise, raising expression) selected by a runtime input k; "+
 		"the function is called for every k: exit j is taken when bit j-1 of k is set, so one call can take several exits in a row (an exception, then what its handler does, then what the finally body does). Oracle = CPython on (path log, return value/exception class) and, for the unwrapped call, exception class + traceback (function, line). "+
+		"One program in three has a second generated function hp(k) with exits of its own, called from inside fn's blocks (unwinding and tracebacks across three frames); one with block in ten has a manager whose __exit__ raises. "+
 		"Non-trivial: nesting depth>=2 with an exit action inside a finally-protected/with/loop region; distinct by program text.")
 	r.Extra("assumptions", []string{"CPython 3.6 unwinding semantics equal 3.4's for the generated subset (no continue in finally)", "tracebacks compared as (function name, line) lists"})
 	r.ReplayKnown()
@@ -331,8 +364,16 @@ func TestC02(t *testing.T) {
 	}
 	rapid.Check(t, func(rt *rapid.T) {
 		c := &c02Gen{g: &G{T: rt}, r: r, maxExit: 4, kinds: map[string]bool{}}
+		helper := ""
+		if c.g.Chance(1, 3) {
+			// a second function with exits of its own (lower bits of k), called from inside fn's blocks
+			c.maxExit = 2
+			helper = "def hp(k):\n    _log.append('hp')\n" + Indent(c.block(c02Ctx{depth: 1}, 1), 4) + "    return 'hend'\n"
+			c.maxExit = 4
+			c.helper = true
+		}
 		body := c.block(c02Ctx{depth: 1}, 2)
-		fn := "def fn(k):\n" + Indent(body, 4) + "    return 'end'\n"
+		fn := helper + "def fn(k):\n" + Indent(body, 4) + "    return 'end'\n"
 		prog := c02Prelude + fn + c02Drive + fmt.Sprintf("for k in range(%d):\n    drive(k)\n", 1<<uint(c.exits))
 		nt := c.maxDepth >= 2 && c.crosses
 		r.Count(fn, nt)
